@@ -22,11 +22,15 @@ struct Case {
     std::vector<Op> ops;
     int threads = 1;
     int face_types = 3;
+    int face_types2 = 0;  // > 0: a SECOND epithelial cell type (same global id 0, listed after the first) with this many face types; every
+                          // other epithelial cell belongs to it
     void write(vf::Writer& w) const {
         tissue.write(w);
         w.i(threads), w.i(face_types), w.u(ops.size());
         w.nl();
         for (auto& o : ops) w.i(o.kind), w.u(o.k), w.i(o.n);
+        w.nl();
+        w.i(face_types2);
         w.nl();
     }
     static Case read(vf::Reader& r) {
@@ -39,6 +43,7 @@ struct Case {
             o.kind = (int)r.i(), o.k = (unsigned)r.u(), o.n = (int)r.i();
             c.ops.push_back(o);
         }
+        if (r.more()) c.face_types2 = (int)r.i();
         return c;
     }
 };
@@ -53,6 +58,7 @@ static rc::Gen<Case> genCase() {
         // 1..4 face types per cell type; the population enters the solver through the real start-up validation (see startup_gate),
         // which is expected to refuse what the polarisation code cannot index
         c.face_types = *rc::gen::element(1, 2, 3, 3, 3, 4);
+        c.face_types2 = *rc::gen::element(0, 0, 1, 2, 3, 4);
         auto genOp = rc::gen::exec([]() {
             Op o;
             o.kind = *rc::gen::weightedElement<int>({{6, STEP}, {2, SHRINK}, {2, INFLATE}});
@@ -145,13 +151,13 @@ static std::string invariants(sk::test_solver& S, Tracker& tr, bool population_c
 // triangulation), with the tissue written as an input mesh. Returns false when start-up refuses the parameter set.
 static bool startup_gate(const Case& k, const tg::Built& b, const global_simulation_parameters& sp0, const std::string& dir, std::string& why, ct::CellScope& scope) {
     std::filesystem::create_directories(dir);
-    std::map<int, short> type_index;
-    for (size_t i = 0; i < b.types.size(); i++) type_index[b.types[i]->global_type_id_] = (short)i;
     std::vector<pg::VtkCell> cells;
-    for (auto& cd : k.tissue.cells) {
+    for (size_t i = 0; i < k.tissue.cells.size(); i++) {
         pg::VtkCell vc;
-        vc.poly = pg::from_trimesh(cd.mesh);
-        vc.type_id = type_index[cd.cls];
+        vc.poly = pg::from_trimesh(k.tissue.cells[i].mesh);
+        vc.type_id = 0;
+        for (size_t t = 0; t < b.types.size(); t++)
+            if (b.types[t] == b.cells[i]->get_cell_type()) vc.type_id = (short)t;
         cells.push_back(vc);
     }
     pg::write_vtk(dir + "/gate.vtk", cells);
@@ -192,6 +198,30 @@ static std::string run(const Case& k, vf::Ctx& ctx) {
         t->bulk_modulus_ = 1.0;
         t->face_types_.resize(std::max<size_t>(1, (size_t)k.face_types), t->face_types_[0]);
     }
+    if (k.face_types2 > 0) {
+        // second epithelial parameter set (the mesh picks the parameter set of a cell by its position in the list, the global id only picks
+        // the class): listed right after the first one, used by every other epithelial cell
+        std::shared_ptr<cell_type_parameters> epi, epi2;
+        size_t pos = 0;
+        for (size_t t = 0; t < b.types.size(); t++)
+            if (b.types[t]->global_type_id_ == 0) epi = b.types[t], pos = t;
+        if (epi) {
+            epi2 = std::make_shared<cell_type_parameters>(*epi);
+            epi2->name_ = "epithelial_2";
+            epi2->face_types_.resize((size_t)k.face_types2, epi->face_types_[0]);
+            b.types.insert(b.types.begin() + pos + 1, epi2);
+            int seen = 0;
+            for (size_t i = 0; i < b.cells.size(); i++) {
+                if (k.tissue.cells[i].cls != 0) continue;
+                if (seen++ % 2 == 0) continue;
+                cell_ptr c = ct::make_cell_of_class(0, k.tissue.cells[i].mesh, b.cells[i]->get_id(), epi2);
+                c->set_local_id((unsigned)i);
+                scope.add(c);
+                b.cells[i] = c;
+            }
+            ctx.count("two_epithelial_cell_types");
+        }
+    }
     for (auto& c : b.cells) c->initialize_random_properties();
     const std::string out = sk::scratch_dir("c08");
     global_simulation_parameters sp = sk::basic_params(out, k.tissue.edge);
@@ -202,7 +232,8 @@ static std::string run(const Case& k, vf::Ctx& ctx) {
         std::filesystem::remove_all(out, ec);
         if (!ok) {
             ctx.count("parameter_set_refused_at_startup");
-            if (k.face_types >= 3) return "start-up refused a parameter set with " + std::to_string(k.face_types) + " face types per cell type: " + why;
+            if (k.face_types >= 3 && (k.face_types2 == 0 || k.face_types2 >= 3))
+                return "start-up refused a parameter set with " + std::to_string(k.face_types) + (k.face_types2 ? "/" + std::to_string(k.face_types2) : std::string()) + " face types per cell type: " + why;
             return "";
         }
         ctx.count("face_types_" + std::to_string(k.face_types) + "_accepted_at_startup");
